@@ -8,6 +8,7 @@ package main
 import (
 	"fmt"
 	"strings"
+	"time"
 
 	fixgen "github.com/b2broker/simplefix-go/tests/fix44"
 	"vlib"
@@ -22,8 +23,8 @@ type c14Mon struct {
 func (m *c14Mon) Key() string { return "" }
 
 func (m *c14Mon) Step(w *world, ev event, outs []outMsg) (string, string) {
-	if !w.s.IsLogged() {
-		return "setup:not-logged", ""
+	if w.ctxDone || w.runDone {
+		return "", "" // two silent periods in a row: the silent-peer rule has ended the session (C09)
 	}
 	want := m.exp[ev.Name]
 	// heartbeats among the outputs, in order
@@ -33,7 +34,9 @@ func (m *c14Mon) Step(w *world, ev event, outs []outMsg) (string, string) {
 			return "malformed-outbound", show(o.Msg)
 		}
 		if mtype(o.Msg) == "0" {
-			hbs = append(hbs, o)
+			if _, has := get(o.Msg, "112"); has { // unsolicited (periodic) heartbeats carry no TestReqID
+				hbs = append(hbs, o)
+			}
 		}
 	}
 	if len(hbs) != len(want) {
@@ -70,9 +73,9 @@ func idClass(id string) string {
 
 func c14Cfgs(tier string) []*histCfg {
 	var cfgs []*histCfg
-	depth := 2
+	depth := 3
 	if tier == "thorough" {
-		depth = 3
+		depth = 5
 	}
 	for _, role := range []string{"acc", "ini"} {
 		role := role
@@ -89,6 +92,9 @@ func c14Cfgs(tier string) []*histCfg {
 			event{Name: "App(D)", Do: func(w *world) { w.in(w.msg("D", "11=x")) }},
 			event{Name: "ResendRequest(1,1)", Do: func(w *world) { w.in(w.msg("2", "7=1", "16=1")) }},
 			event{Name: "local Send(app)", Do: func(w *world) { _ = w.s.Send(fixgen.NewMarketDataRequest()) }},
+			// inbound silence just long enough for the session to send its own TestRequest: the peer's
+			// TestRequest that follows crosses it on the wire
+			event{Name: "Silence(32 s)", Do: func(w *world) { time.Sleep(32 * time.Second) }},
 		)
 		// back-to-back: two (three) messages are queued before the dispatcher runs
 		q := func(name string, exp []string, build func(w *world) [][]byte) {
